@@ -91,6 +91,19 @@ CLAIMED['C19'] = ('TLA+ specs Screening.tla (fit() pipeline as a state machine w
                   'Which geos are noisy / which dates are outliers is not specified (numeric); frames have date as a column; integer responses so '
                   'totals are exact. ' + TRUST, 'DESIGN.md section 4 C19')
 
+CLAIMED['C10'] = ('TLA+ spec MMApi.tla generates call histories over the 12 public calls of one object and predicts each answer (fresh / last search / error); '
+                  'histories replayed into real objects, answers, parameter object and input frame compared after every call; MMImplG ParamsUntouched at design level',
+                  'All histories of length 3 on several instances plus TLC-simulated histories of length 8-10; every answer must equal the answer of the same '
+                  'call made first on a fresh object; retrieval must return the last search\'s list; asdict(parameters) and the caller\'s frame must be '
+                  'unchanged after every call. The pre-repair model variants still expose D2 / D3.',
+                  'design_within_constraints() is not among the calls the property lists; exact comparison of projected answers. ' + TRUST,
+                  'DESIGN.md section 4 C10')
+CLAIMED['C12'] = ('TLA+ spec MMPresent.tla decides the memo invariant over presentations of one abstract instance (rows shuffled, dates shifted, int/str IDs, '
+                  'renamings, power-of-two scaling of responses and budget) on results recorded from the real searches',
+                  'Each abstract instance is run under 8-10 presentations; results are projected back (geo numbers, verdicts, rounded correlation, '
+                  'value-class ids of impact-based quantities after undoing the scale) and must equal the first presentation\'s answer clause by clause.',
+                  'Generic position and tie-free instances only (a tie-break is not a presentation dependence). ' + TRUST, 'DESIGN.md section 4 C12')
+
 PENDING_REASON = 'check not built yet in this round (planned, see DESIGN.md section 10); not claimed until it runs'
 
 
